@@ -1,5 +1,6 @@
 (* X12 — the bridge between the WRITER model of C02 and the READER model of C01 (round 6).
-   Definitions only; the proofs are in BridgePlain.v, BridgeEnc.v, Bridge.v, the examples in BridgeEx.v.
+   Definitions only; the proofs are in BridgePlain.v, BridgeEnc.v, Bridge.v, BridgeShape.v, the examples in
+   BridgeEx.v; the statements are pinned in Props/C02.v (the C02_bridge theorems).
 
    C02 (coq/C02/Model.v, Encode.v) and C01 (coq/C01/Model.v) were written independently and share no
    definition.  This file translates C02's vocabulary into C01's:
@@ -10,7 +11,7 @@
      Plain bs          (opaque bytes)               Gen ctor ops, decoded from bs with C01's OWN tables
                                                     (pass2_entry / pass2_wide_entry / dec_ops): [plain_insn]
      Br (KCond op inv) l, narrow                    Gen op [OpT (T l)]                 form FPlain op
-     Br (KCond op inv) l, wide (8 bytes)            Gen inv [OpT (k+2)]; Gen 167 [OpT (T l)]
+     Br (KCond op inv) l, wide (8 bytes)            Gen inv [OpT (2+k)]; Gen 167 [OpT (T l)]
                                                     (k = own index; forms FPlain inv, FPlain 200 = goto_w)
      Br (KJump op wop) l                            Gen op [OpT (T l)]     form FPlain op / FPlain wop:
                                                     goto_w / jsr_w are READ as Goto / Jsr (ctor 167 / 168)
@@ -31,7 +32,7 @@
    OUTSIDE (see Bridge.v for why): Plain [] and Plain entries holding several instructions or a
    branch/switch opcode; a branch, switch arm, handler, range start or offset that names the LAST
    label (duke's reader refuses a target at code_length); a body whose last entry is a conditional
-   (its long form jumps to code_length); stack-map frames (C02 emits attribute bytes, C01's code_in
+   written in its long form (it jumps to code_length); stack-map frames (C02 emits attribute bytes, C01's code_in
    takes offset deltas: the link is at the class-file level); pool contents of operands (both models
    keep indices here). *)
 From Coq Require Import List NArith ZArith Bool Lia.
@@ -108,10 +109,11 @@ Definition cnt (c : bool) (e : W.entry) : nat :=
   | _ => 1%nat
   end.
 
-(* index (in the translated body) of the instruction a label designates; mirrors WE.labpos *)
+(* index (in the translated body) of the instruction a label designates; mirrors WE.labpos
+   ([cnt c e + k], not [k + cnt c e]: unary addition recurses on its first argument) *)
 Fixpoint lidx (chs : list bool) (k : nat) (b : W.body) (last : option W.label) (l : W.label) : option nat :=
   match b, chs with
-  | (lb, e) :: r, c :: cs => if WE.olabel_is lb l then Some k else lidx cs (k + cnt c e) r last l
+  | (lb, e) :: r, c :: cs => if WE.olabel_is lb l then Some k else lidx cs (cnt c e + k) r last l
   | _, _ => if WE.olabel_is last l then Some k else None
   end.
 Definition tgt_of (o : option nat) : nat := match o with Some k => k | None => 0%nat end.
@@ -125,7 +127,7 @@ Definition tr_entry (T : W.label -> nat) (k : nat) (c : bool) (e : W.entry) : li
   match e with
   | W.Plain bs => [plain_insn_d bs]
   | W.Br (W.KCond op inv) l =>
-      if c then [Gen inv [OpT (k + 2)%nat]; Gen op_goto [OpT (T l)]] else [Gen op [OpT (T l)]]
+      if c then [Gen inv [OpT (2 + k)%nat]; Gen op_goto [OpT (T l)]] else [Gen op [OpT (T l)]]
   | W.Br (W.KJump op wop) l => [Gen op [OpT (T l)]]
   | W.TSwitch d lo hi ts => [TSw (T d) lo hi (map T ts)]
   | W.LSwitch d ps => [LSw (T d) (map (fun kp => (fst kp, T (snd kp))) ps)]
@@ -141,7 +143,7 @@ Definition ch_entry (c : bool) (e : W.entry) : list choice :=
 
 Fixpoint tr_from (T : W.label -> nat) (chs : list bool) (k : nat) (b : W.body) : list (ainsn nat) :=
   match b, chs with
-  | (_, e) :: r, c :: cs => tr_entry T k c e ++ tr_from T cs (k + cnt c e) r
+  | (_, e) :: r, c :: cs => tr_entry T k c e ++ tr_from T cs (cnt c e + k) r
   | _, _ => []
   end.
 Fixpoint chl_from (chs : list bool) (b : W.body) : list choice :=
@@ -192,11 +194,20 @@ Definition entry_in (e : W.entry) : bool :=
   | W.TSwitch _ lo hi _ => WE.fits32 lo && WE.fits32 hi
   | W.LSwitch _ ps => forallb (fun kp => WE.fits32 (fst kp)) ps
   end.
-(* every entry is in the fragment and the last entry is not a conditional *)
-Fixpoint body_in (b : W.body) : bool :=
+(* every entry is in the fragment and the last entry is not a conditional IN ITS LONG FORM (that one
+   jumps to code_length) *)
+Fixpoint body_in (chs : list bool) (b : W.body) : bool :=
+  match b, chs with
+  | (_, e) :: r, c :: cs =>
+      entry_in e && (match r with [] => negb (is_cond e && c) | _ => true end) && body_in cs r
+  | _, _ => true
+  end.
+(* a sufficient condition that does not mention the writer's choices: the last entry is no conditional
+   (true of every method that does not fall off its end) *)
+Fixpoint body_in_simple (b : W.body) : bool :=
   match b with
   | [] => true
-  | (_, e) :: r => entry_in e && (match r with [] => negb (is_cond e) | _ => true end) && body_in r
+  | (_, e) :: r => entry_in e && (match r with [] => negb (is_cond e) | _ => true end) && body_in_simple r
   end.
 
 (* a label is carried by an entry of the body (it is not only the last label) *)
